@@ -454,6 +454,44 @@ def split_iterators(items, ctx):
     return out
 
 
+def split_operators(items, ctx):
+    """R24 (same idea as R7): `impl std::ops::BitAnd<X> for T { fn bitand }` / `BitOr`: the operator impl stays (its fn is
+    `external_body` in the overlay, callers see vstd's operator spec) and its body is **duplicated verbatim** as an inherent
+    fn `vp_dup_bitand` / `vp_dup_bitor`, which is what gets verified against the operator's spec."""
+    import copy
+    out = []
+    for it in items:
+        out.append(it)
+        if it.kind == "impl" and it.impl_trait and re.match(r"(?:std::ops::|core::ops::)?(BitAnd|BitOr)\b", it.impl_trait):
+            fns = [c for c in it.children if c.kind == "fn"]
+            if len(fns) != 1 or fns[0].name not in ("bitand", "bitor"):
+                _err("unsupported: operator impl shape for %s" % it.impl_type)
+            h = text_of(it.header)
+            mh = re.match(r"(\s*impl\s*(?:<.*?>)?\s*)(?:[\w:]+::)?(?:BitAnd|BitOr)\s*(?:<.*>)?\s+for\s+(.*)$", h, re.S)
+            if not mh:
+                _err("unsupported: operator impl header for %s" % it.impl_type)
+            dup = Item()
+            dup.kind = "impl"
+            dup.line = it.line
+            dup.attrs = []
+            dup.header = [Tok("ident", mh.group(1) + mh.group(2), it.line)]
+            dup.impl_type = it.impl_type
+            dup.impl_trait = None
+            f = copy.copy(fns[0])
+            f.name = "vp_dup_" + fns[0].name
+            htxt = text_of(f.header).replace("Self::Output", "Self")
+            htxt = re.sub(r"\bfn\s+" + fns[0].name + r"\b", "pub fn " + f.name, htxt, count=1)
+            f.header = [Tok("ident", htxt, f.line)]
+            f.parent = dup
+            dup.children = [f]
+            dup.body = []
+            dup.toks = []
+            out.append(dup)
+            ctx.log.append({"rule": "R24", "file": ctx.cur_file, "line": it.line,
+                            "what": "operator impl %s for %s: body duplicated as inherent fn %s (verified copy)" % (it.impl_trait, it.impl_type, f.name)})
+    return out
+
+
 def prepare_custom_packet(items, ctx):
     """tests/custom_packet.rs: keep the type definitions, drop the #[test] functions."""
     out = []
